@@ -27,6 +27,8 @@ pub fn gen_history(ctx: &Ctx, max_updates: usize, objstm_bias: bool, allow_junk:
     cfg.n_objects = cfg.n_objects.min(if objstm_bias { 30 } else { 60 });
     // rare class: one huge object stream (work splitting by pool size only shows on large index blocks)
     let big = objstm_bias && ctx.chance(W, 1, 16, "big-objstm");
+    // rare class: object streams that inflate to hundreds of times the file size
+    let bomb = objstm_bias && !big && ctx.chance(W, 1, 40, "compressible-objstm");
     if big {
         cfg.n_objects = 420 + ctx.draw(W, 300, "big-n") as usize;
         cfg.max_depth = 1;
@@ -42,6 +44,18 @@ pub fn gen_history(ctx: &Ctx, max_updates: usize, objstm_bias: bool, allow_junk:
     let mut g = gen::Gen::new(ctx, cfg);
     let m = g.gen_doc();
     let mut m = m;
+    if bomb {
+        // a handful of generation-0 objects holding very long runs of one byte: with Flate on the
+        // containers the file stays a few KiB while the object streams inflate to megabytes
+        let mut id = m.objects.keys().map(|k| k.0).max().unwrap_or(0) + 1;
+        for _ in 0..3 + ctx.draw(W, 2, "bomb-objects") {
+            let n = 60_000 + ctx.draw(W, 200_000, "bomb-len") as usize;
+            m.objects.insert((id, 0), MObj::Str(vec![b'a' + ctx.draw(W, 20, "bomb-byte") as u8; n], false));
+            id += 1;
+        }
+        m.max_id = m.max_id.max(id);
+        ctx.count("compressible-objstm-docs");
+    }
     // rare class: a large file (offsets whose middle and high bytes are non-zero: wide W fields,
     // predictor arithmetic on large byte values)
     if !objstm_bias && ctx.chance(W, 1, 12, "large-file") {
@@ -88,7 +102,7 @@ pub fn gen_history(ctx: &Ctx, max_updates: usize, objstm_bias: bool, allow_junk:
     if !allow_junk {
         opts.leading_junk = false;
     }
-    if big {
+    if big || bomb {
         opts.freedom = 2;
     }
     // raw CR / CRLF inside literal strings: only C02 is about string syntax, and there the
